@@ -50,8 +50,17 @@ Inductive case :=
 
 (* the label side of the punycode property: lower-case, valid UTF-8, no part that already is an A-label,
    short enough for the u32 arithmetic (the DNS limit is 63 per label) *)
+(* the code points on which the model's `lower_cp` is claimed to agree with char::to_lowercase (see the
+   header of Model/Punycode.v): ASCII, Latin-1, Greek without capital sigma, basic Cyrillic, and the caseless
+   blocks the generator draws from (NKo/Samaritan edge, kana, CJK, hangul, emoticons, U+10FFFF) *)
+Definition cp_in_lower_domain (c : N) : bool :=
+  ((c <? 256) || ((913 <=? c) && (c <=? 937) && negb (c =? 931)) || ((945 <=? c) && (c <=? 969)) || ((1024 <=? c) && (c <=? 1119))
+   || ((2047 <=? c) && (c <=? 2048)) || ((12352 <=? c) && (c <=? 12543)) || ((19968 <=? c) && (c <=? 40959))
+   || ((44032 <=? c) && (c <=? 55203)) || ((128512 <=? c) && (c <=? 128591)) || (c =? 1114111))%N.
+Definition in_lower_domain (x : bytes) : bool := forallb cp_in_lower_domain (utf8_chars (utf8_lossy x)).
+
 Definition valid_labels (x : bytes) : bool :=
-  valid_utf8 x && bytes_eqb (to_lowercase x) x
+  valid_utf8 x && in_lower_domain x && bytes_eqb (to_lowercase x) x
   && forallb (fun p => negb (starts_with xn_prefix p)) (split_on dot x)
   && (N.of_nat (length x) <=? 1000)%N.
 
@@ -73,7 +82,7 @@ Definition check (c : case) : bool :=
       end
       && ires_eqb (decode_percent y) dy
   | CPuny x e d y dy =>
-      ires_eqb (encode_punycode_novalidate x) e
+      (if in_lower_domain x then ires_eqb (encode_punycode_novalidate x) e else true)
       && on_ok e (fun b => ires_eqb (decode_punycode_novalidate b) d)
       && ires_eqb (decode_punycode_novalidate y) dy
   | CPunyV _ x e d =>
